@@ -9,6 +9,7 @@
 package main
 
 import (
+	"bytes"
 	"encoding/json"
 	"fmt"
 	"io"
@@ -37,6 +38,38 @@ func workerInit() {
 	debug.SetMaxStack(8 << 20)
 	srv := httptest.NewServer(http.HandlerFunc(func(w http.ResponseWriter, r *http.Request) {
 		w.Header().Set("Cache-Control", "max-age=3600")
+		// odd origin responses by path: no body at all, a status without body, huge / odd headers, odd statuses
+		switch {
+		case strings.HasPrefix(r.URL.Path, "/origin/empty"):
+			w.Header().Set("Content-Length", "0")
+			w.WriteHeader(200)
+			return
+		case strings.HasPrefix(r.URL.Path, "/origin/204"):
+			w.WriteHeader(204)
+			return
+		case strings.HasPrefix(r.URL.Path, "/origin/304"):
+			w.WriteHeader(304)
+			return
+		case strings.HasPrefix(r.URL.Path, "/origin/599"):
+			w.WriteHeader(599)
+			return
+		case strings.HasPrefix(r.URL.Path, "/origin/redirect"):
+			w.Header().Set("Location", "/origin/empty")
+			w.WriteHeader(302)
+			return
+		case strings.HasPrefix(r.URL.Path, "/origin/headers"):
+			for i := 0; i < 200; i++ {
+				w.Header().Add("Set-Cookie", "c"+strconv.Itoa(i)+"="+strings.Repeat("v", 100))
+			}
+			w.Header().Set("Cache-Control", "max-age=99999999999999999999, s-maxage=-1, stale-while-revalidate=abc")
+			w.Header().Set("Surrogate-Control", "max-age=x")
+			w.Header().Set("Expires", "garbage")
+			w.Header().Set("Age", "-5")
+			w.Header().Set("Vary", "*")
+		case strings.HasPrefix(r.URL.Path, "/origin/big"):
+			w.Write(bytes.Repeat([]byte("x"), 3<<20))
+			return
+		}
 		w.Write([]byte("origin:" + r.URL.Path))
 	}))
 	u, _ := url.Parse(srv.URL)
